@@ -270,6 +270,15 @@ func NewCalculator(
 	}
 	multiplier /= coveredRegion
 
+	// the largest request of the profile has to fit an int
+	maxWeight := averageWeight
+	for _, weight := range weights {
+		maxWeight = math.Max(maxWeight, weight)
+	}
+	if peakRequest := multiplier * gauss.PDF(float64(peak)) * maxWeight / averageWeight; !(peakRequest < 1e18) {
+		return nil, errors.New("peak and standard deviation leave (almost) no load inside the repeat window")
+	}
+
 	return &Calculator{
 		frequency:     frequency,
 		dist:          gauss,
